@@ -161,7 +161,7 @@ def fmt_templates(tier):
 def queries(tier):
     qs = []
     quick = tier == 'quick'
-    WB = 12 if quick else 24           # symbolic width/precision bound of the (B) queries (larger values: concrete, in e2e.* and thorough opts.w70.*)
+    WB = 12 if quick else 20           # symbolic width/precision bound of the (B) queries (larger values: concrete, in e2e.* and thorough opts.w70.*)
     D10 = 3                            # radix-10 digit bound of the layout queries
     # ---------------------------------------------------------------- (A) parser
     # (measured: with the directive's pieces solver-chosen the parse position is symbolic and symbolic execution of printf_format does not finish in 25 min, neither merged nor
@@ -169,7 +169,7 @@ def queries(tier):
     # ---------------------------------------------------------------- (B) conversion back ends
     int_convs = [0, 2, 3, 4, 5, 10] if quick else [0, 1, 2, 3, 4, 5, 10, 11]
     for conv in int_convs:
-        lms = ([0] if conv == 5 else [0, 3] if conv == 10 else [0, 1, 2, 3]) if quick else ([0, 1, 2, 3, 4, 6] if conv in (0, 2, 4) else [0, 1, 3, 4])
+        lms = ([0] if conv == 5 else [0, 3] if conv == 10 else [0, 1, 2, 3]) if quick else ([0, 1, 2, 3, 4, 6] if conv == 0 else [0, 1, 3, 4])
         for lm in lms:
             vcs = ([0] + ([3, 4, 5] if conv in (0, 2, 3, 4) and lm in (0, 3) else [])) if quick else [0, 3, 4, 5, 8]
             for vc in vcs:
@@ -305,6 +305,6 @@ ASSUMPTIONS = [
 ]
 OUTSIDE = ['floating-point conversions (%f %e %g), %ls / %lc, %n', 'format strings outside the e2e.* family as far as the PARSER is concerned (the back ends are covered for all option sets)',
            'radix-10 values with more than 3 digits other than the boundary constants (digit kernel alone: digits.r10.* up to 10^5 in the thorough tier)',
-           'widths and precisions above 70; solver-chosen widths/precisions above 12 (quick) / 24 (thorough) in opts.* - larger ones are concrete (e2e.*, fmt.*, thorough opts.w70.*)',
+           'widths and precisions above 70; solver-chosen widths/precisions above 12 (quick) / 20 (thorough) in opts.* - larger ones are concrete (e2e.*, fmt.*, thorough opts.w70.*)',
            'locale_options other than the default (thousands separators / grouping strings)', 'agents other than the test agent; sinks that fail', '%s arguments longer than 5 bytes, NULL %s arguments (undefined in ISO C)',
            'fmt() argument types other than int, unsigned long, char; more than three arguments; format strings outside the template family', 'logger Limit other than 8; text appended after endlog; more than three pieces']
